@@ -474,6 +474,16 @@ func envcheckCase(r *rand.Rand, a, b envForm, tags []string) Case {
 	}
 	c.Tags = append(c.Tags, "compile:ok")
 
+	// history: half of the cases first invoke the callable once with the compile-time data
+	// itself (a call that must be accepted); the verdict on the second call must not depend on it
+	if _, isTypeEnv := a.x.(*types.Env); !isTypeEnv && r.Intn(2) == 0 {
+		func() {
+			defer func() { recover() }()
+			callable(a.x)
+		}()
+		c.Tags = append(c.Tags, "history:warm-up-call")
+	}
+
 	// invoke
 	envTrace = nil
 	var res *val.Val
